@@ -247,9 +247,19 @@ fn run_history<W: Wb>(fmt: &str, open: &dyn Fn() -> Option<W>, book: &MBook, has
     };
     let names: Vec<String> = book.sheets.iter().map(|s| s.name.clone()).collect();
     let tables: Vec<String> = book.sheets.iter().flat_map(|s| s.tables.iter().map(|t| t.name.clone())).collect();
+    // names that are not sheets of this workbook: a made-up one and the existing names in another
+    // ASCII case (a name is matched exactly)
+    let mut unknown: Vec<String> = vec!["no such sheet".to_string()];
+    for n in &names {
+        for v in [n.to_ascii_uppercase(), n.to_ascii_lowercase()] {
+            if !names.iter().any(|x| x.eq_ignore_ascii_case(&v) && *x == v) && !names.contains(&v) {
+                unknown.push(v);
+            }
+        }
+    }
     let pick_name = |rng: &mut Rng| -> String {
         if rng.chance(1, 8) {
-            "no such sheet".to_string()
+            unknown[rng.usize(unknown.len())].clone()
         } else {
             names[rng.usize(names.len())].clone()
         }
@@ -404,10 +414,15 @@ fn run_history<W: Wb>(fmt: &str, open: &dyn Fn() -> Option<W>, book: &MBook, has
             fail(out, format!("c07|{}|range_at_past_end", fmt), json!(null));
             return;
         }
-        for op in [Op::Range("no such sheet".into()), Op::Formula("no such sheet".into())] {
-            if !f.call(&op).starts_with("Err") {
-                fail(out, format!("c07|{}|unknown_sheet_not_an_error", fmt), json!({"op": format!("{:?}", op)}));
-                return;
+        for u in &unknown {
+            if u != "no such sheet" {
+                out.feat("unknown_name:other_case");
+            }
+            for op in [Op::Range(u.clone()), Op::Formula(u.clone())] {
+                if !f.call(&op).starts_with("Err") {
+                    fail(out, format!("c07|{}|unknown_sheet_not_an_error", fmt), json!({"op": format!("{:?}", op), "sheets": names}));
+                    return;
+                }
             }
         }
     }
@@ -509,6 +524,18 @@ fn break_one_sheet(xlsx: &[u8]) -> Option<Vec<u8>> {
     Some(crate::enc::zipw::build(&parts))
 }
 
+/// a cursor over the file, every other time left at some position other than the start (the
+/// result of a read is a function of the file, not of where the handed-over reader stood)
+fn cur_at(bytes: &[u8]) -> Cur {
+    static N: std::sync::atomic::AtomicU64 = std::sync::atomic::AtomicU64::new(0);
+    let k = N.fetch_add(1, std::sync::atomic::Ordering::Relaxed);
+    let mut c = Cursor::new(bytes.to_vec());
+    if k % 2 == 1 {
+        c.set_position([3u64, 512, bytes.len() as u64 / 2, bytes.len() as u64][(k / 2 % 4) as usize]);
+    }
+    c
+}
+
 fn vba_bin(rng: &mut Rng) -> Vec<u8> {
     let p = Project { codepage: 1252, modules: vec![Module { name: "Module1".into(), source: b"Sub a()\r\nEnd Sub\r\n".to_vec(), text_offset: 3, document: false, read_only: false, private: false }], references: vec![], compat_version: false };
     let mut st = Stats::default();
@@ -533,7 +560,7 @@ impl Prop for C07 {
         tier.pick(16, 160)
     }
     fn mandatory(&self, _t: Tier) -> Vec<String> {
-        let mut v: Vec<String> = ["fmt:xlsx", "fmt:xlsb", "fmt:xls", "fmt:ods", "header_row_changed", "auto_detected", "non_worksheet_present", "with_vba", "scripted:table_across_header_change", "xlsx:unreadable_sheet"].iter().map(|s| s.to_string()).collect();
+        let mut v: Vec<String> = ["fmt:xlsx", "fmt:xlsb", "fmt:xls", "fmt:ods", "header_row_changed", "auto_detected", "non_worksheet_present", "with_vba", "scripted:table_across_header_change", "xlsx:unreadable_sheet", "unknown_name:other_case"].iter().map(|s| s.to_string()).collect();
         for o in ["Range", "RangeRef", "RangeAt", "Worksheets", "Formula", "MergeCells", "MergeCellsAt", "MergedBySheet", "Table", "TableRef", "Vba", "SheetNames", "Metadata", "DefinedNames"] {
             v.push(format!("op:{}", o));
         }
@@ -573,7 +600,7 @@ impl Prop for C07 {
                             out.feat("xlsx:unreadable_sheet");
                         }
                     }
-                    run_history::<Xlsx<Cur>>(fmt, &|| Xlsx::new(Cursor::new(bytes.clone())).ok(), &book, true, &mut rng, out, &ctxj, &bytes);
+                    run_history::<Xlsx<Cur>>(fmt, &|| Xlsx::new(cur_at(&bytes)).ok(), &book, true, &mut rng, out, &ctxj, &bytes);
                 }
                 "xlsb" => {
                     let mut ch = XlsbChoices::random(&mut rng);
@@ -582,7 +609,7 @@ impl Prop for C07 {
                         ch.vba = Some(vba_bin(&mut rng));
                     }
                     let bytes = crate::enc::xlsb::encode(&book, &ch, &XlsbExtra::default(), &mut rng).bytes;
-                    run_history::<Xlsb<Cur>>(fmt, &|| Xlsb::new(Cursor::new(bytes.clone())).ok(), &book, true, &mut rng, out, &ctxj, &bytes);
+                    run_history::<Xlsb<Cur>>(fmt, &|| Xlsb::new(cur_at(&bytes)).ok(), &book, true, &mut rng, out, &ctxj, &bytes);
                 }
                 "xls" => {
                     let more = if with_vba {
@@ -592,11 +619,11 @@ impl Prop for C07 {
                         vec![]
                     };
                     let (bytes, _) = crate::enc::xls_file(&book, &BiffChoices::random(&mut rng), &BiffExtra::default(), &CfbChoices::random(&mut rng), &more, &mut rng);
-                    run_history::<Xls<Cur>>(fmt, &|| Xls::new(Cursor::new(bytes.clone())).ok(), &book, false, &mut rng, out, &ctxj, &bytes);
+                    run_history::<Xls<Cur>>(fmt, &|| Xls::new(cur_at(&bytes)).ok(), &book, false, &mut rng, out, &ctxj, &bytes);
                 }
                 _ => {
                     let bytes = crate::enc::ods::encode(&book, &OdsChoices::random(&mut rng), &mut rng).bytes;
-                    run_history::<Ods<Cur>>(fmt, &|| Ods::new(Cursor::new(bytes.clone())).ok(), &book, false, &mut rng, out, &ctxj, &bytes);
+                    run_history::<Ods<Cur>>(fmt, &|| Ods::new(cur_at(&bytes)).ok(), &book, false, &mut rng, out, &ctxj, &bytes);
                 }
             }
         }
